@@ -453,10 +453,12 @@ class ArgumentParser:
         # Directories specified with -isystem are searched after all
         # directories specified with -I, and -I is ignored for a directory
         # that is also specified with -isystem.
+        # (compared as directories: "inc", "inc/" and "./inc" are the same)
+        system_dirs = {os.path.normpath(p) for p in args.system_include_paths}
         args.include_paths = [
             p
             for p in args.include_paths
-            if p not in args.system_include_paths
+            if os.path.normpath(p) not in system_dirs
         ] + args.system_include_paths
 
         # Construct final list of active modes, in command-line order:
